@@ -300,6 +300,163 @@ def shrink(n, g, sched):
     return cur
 
 
+class Bracket:
+    """The wrapper itself: real `condom`-wrapped probe calls on the MAIN thread (index 0, the only one that gets the SIGINT
+    handler) and on worker threads, advanced one whole enter / exit at a time by a token schedule [(thread, E|X|R)]:
+    E = start one more (nested) wrapped call, X = return from the innermost, R = leave the innermost with a Z3Exception."""
+
+    def __init__(self, n, gc0, sched):
+        import gc, z3
+        import claripy.backends.backend_z3 as bz
+        self.bz, self.gc, self.z3 = bz, gc, z3
+        self.n, self.gc0, self.sched = n, gc0, list(sched)
+        self.cv = threading.Condition()
+        self.pos = 0
+        self.depth = [0] * n
+        self.fail = None          # (step index, text)
+        self.mismatch = None      # counter != calls in progress (the tie, not the property)
+        self.obs = []
+        self.wrapped = bz.condom(self._probe)
+
+    def _arrive(self):
+        with self.cv:
+            inprog = sum(self.depth)
+            en = self.gc.isenabled()
+            self.obs.append("%d,%d,%d" % (self.bz._active_z3_calls, inprog, 1 if en else 0))
+            if self.fail is None:
+                if inprog > 0 and en:
+                    self.fail = (self.pos, "gc enabled while %d wrapped call(s) in progress" % inprog)
+                elif inprog == 0 and en != self.gc0:
+                    self.fail = (self.pos, "all wrapped calls returned but gc.isenabled()=%s, was %s before the first call" % (en, self.gc0))
+                elif self.bz._active_z3_calls < 0:
+                    self.fail = (self.pos, "in-progress counter negative (%d)" % self.bz._active_z3_calls)
+            if self.mismatch is None and self.bz._active_z3_calls != inprog:
+                self.mismatch = (self.pos, "_active_z3_calls=%d but %d wrapped call(s) in progress" % (self.bz._active_z3_calls, inprog))
+            self.pos += 1
+            self.cv.notify_all()
+
+    def _turn(self, tid):
+        with self.cv:
+            while self.pos < len(self.sched) and self.sched[self.pos][0] != tid:
+                if not self.cv.wait(timeout=20):
+                    self.fail = self.fail or (self.pos, "scheduler stuck")
+                    self.pos = len(self.sched)
+                    self.cv.notify_all()
+            if self.pos >= len(self.sched):
+                return "X" if self.depth[tid] > 0 else None
+            return self.sched[self.pos][1]
+
+    def _call(self, tid):
+        try:
+            self.wrapped(tid)
+        except self.bz.ClaripyZ3Error:
+            pass
+        self._arrive()
+
+    def _probe(self, tid):
+        self.depth[tid] += 1
+        self._arrive()
+        while True:
+            a = self._turn(tid)
+            if a == "E":
+                self._call(tid)
+            elif a == "R":
+                self.depth[tid] -= 1
+                raise self.z3.Z3Exception("probe")
+            else:
+                self.depth[tid] -= 1
+                return
+
+    def _thread(self, tid):
+        while True:
+            a = self._turn(tid)
+            if a is None:
+                return
+            if a == "E":
+                self._call(tid)
+            else:       # X / R outside any call: not a step
+                with self.cv:
+                    self.pos += 1
+                    self.cv.notify_all()
+
+    def run(self):
+        was = self.gc.isenabled()
+        (self.gc.enable if self.gc0 else self.gc.disable)()
+        ws = [threading.Thread(target=self._thread, args=(i,), daemon=True) for i in range(1, self.n)]
+        try:
+            for w in ws:
+                w.start()
+            self._thread(0)
+            for w in ws:
+                w.join(timeout=30)
+        finally:
+            (self.gc.enable if was else self.gc.disable)()
+        return self.obs, self.fail, self.mismatch
+
+
+def bracket_complete(sched, n):
+    """append the exits that are still open (innermost first, thread by thread)"""
+    d = [0] * n
+    out = []
+    for t, a in sched:
+        if a == "E":
+            if d[t] >= 3:
+                continue
+            d[t] += 1
+        else:
+            if d[t] == 0:
+                continue
+            d[t] -= 1
+        out.append((t, a))
+    for t in range(n):
+        out += [(t, "X")] * d[t]
+    return out
+
+
+def bracket_schedules(rng, quick):
+    import itertools
+    seen, res = set(), []
+    steps2 = [(t, a) for t in (0, 1) for a in "EXR"]
+    for ln in range(1, 5 if quick else 6):
+        for combo in itertools.product(steps2, repeat=ln):
+            s = tuple(bracket_complete(combo, 2))
+            if s and s not in seen:
+                seen.add(s); res.append((2, list(s)))
+    for _ in range(150 if quick else 3000):
+        n = rng.choice([2, 3, 3, 4])
+        raw = [(rng.randrange(n), rng.choice("EEXXR")) for _ in range(rng.choice([6, 10, 16]))]
+        s = tuple(bracket_complete(raw, n))
+        if s and (n, s) not in seen:
+            seen.add((n, s)); res.append((n, list(s)))
+    return res
+
+
+def run_bracket(ctx):
+    import signal
+    nrun = 0
+    old = signal.getsignal(signal.SIGINT)
+    try:
+        for hname, handler in (("python-default", signal.default_int_handler), ("user-handler", lambda *a: None)):
+            signal.signal(signal.SIGINT, handler)
+            for (n, s) in bracket_schedules(ctx.rng, ctx.tier == "quick"):
+                for g in (True, False):
+                    obs, fail, mism = Bracket(n, g, s).run()
+                    ctx.count(); nrun += 1
+                    if len(set(t for t, _ in s)) > 1:
+                        ctx.distinct(("bracket", n, g, hname, tuple(s)))
+                    txt = " ".join("%d:%s" % x for x in s)
+                    if fail:
+                        ctx.violation("C19/condom", "%s at step %d of wrapped-call schedule %s (threads=%d, thread 0 is the main thread, gc initially %s, SIGINT handler %s)" % (
+                            fail[1], fail[0], txt, n, "on" if g else "off", hname),
+                            {"bracket": {"threads": n, "gc0": g, "schedule": [list(x) for x in s], "handler": hname}, "observed(counter,calls,gc)": obs, "failure": fail[1]})
+                        return nrun
+                    if mism:
+                        ctx.tie_broken("corr:condom-bracket", "%s at step %d of wrapped-call schedule %s (handler %s)" % (mism[1], mism[0], txt, hname))
+    finally:
+        signal.signal(signal.SIGINT, old)
+    return nrun
+
+
 def run(ctx):
     ctx.cov["trusted_base"] += [
         "translator harness/translate_gcguard.py (Python ast -> 12-instruction program); it refuses anything outside its grammar",
@@ -409,6 +566,12 @@ def run(ctx):
         if walks:
             n, g, s, obs = walks[0]
             ctx.sample({"threads": n, "gc0": g, "random_walk": " ".join(s[:40]), "observed(active,saved,gc,lock)": obs[:40]})
+    # 5. the wrapper: every wrapped call is one enter and one exit, on every thread and on every way out
+    try:
+        nb = run_bracket(ctx)
+        ctx.cov.setdefault("input_distribution", {})["wrapped_call_schedules"] = nb
+    except Exception as e:  # noqa
+        ctx.tie_broken("corr:condom-bracket", "wrapped-call driver failed: %r" % (e,))
     if found:
         n, g, s, b = found
         s = shrink(n, g, s)
@@ -421,6 +584,19 @@ def run(ctx):
 
 def replay(ctx, obj):
     r = obj["replay"]
+    if "bracket" in r:
+        import signal
+        b = r["bracket"]
+        old = signal.getsignal(signal.SIGINT)
+        signal.signal(signal.SIGINT, signal.default_int_handler if b["handler"] == "python-default" else (lambda *a: None))
+        try:
+            obs, fail, mism = Bracket(b["threads"], b["gc0"], [tuple(x) for x in b["schedule"]]).run()
+        finally:
+            signal.signal(signal.SIGINT, old)
+        print("wrapped-call schedule:", b["schedule"]); print("observed (counter, calls in progress, gc):", obs)
+        if fail:
+            print("VIOLATION property=C19 replay=(given)"); print("failure:", fail[1]); return 1
+        print("no failure on the current tree"); return 0
     obs, bad = run_real(r["threads"], r["gc0"], r["schedule"])
     print("schedule:", " ".join(r["schedule"]))
     print("observed (active,saved,gc,lock):", obs)
